@@ -4,6 +4,7 @@ from __future__ import annotations
 import ast
 
 from vlib.core import AnalysisError, Report
+from vlib.match import closure_fi, has_call, nodes
 from vlib.norm import Expander
 from vlib.schema import dict_keys, returned_dicts, subscripted_keys, typeddict_keys
 from vlib.srcindex import SourceIndex, attr_chain, const_str, mangle, unparse, walk_no_nested
@@ -217,8 +218,8 @@ def run(rep: Report, tier: str) -> None:
 	es = p.cls('EntryStored')
 	save, load = es.method('save'), es.method('load')
 	ssrc, lsrc = unparse(save.node), unparse(load.node)
-	rs.check('Serialization.dumps(' in ssrc and 'json.dumps(' in ssrc and ".encode('utf-8')" in ssrc, 'save', save.where, 'EntryStored.save no longer writes json.dumps(Serialization.dumps(tree)) encoded as utf-8')
-	rs.check('json.load(' in lsrc and 'Serialization.loads(' in lsrc and 'EntryOfLark(' in lsrc, 'load', load.where, 'EntryStored.load no longer restores EntryOfLark(Serialization.loads(json.load(stream)))')
+	rs.check(has_call(closure_fi(save), 'Serialization.dumps') and has_call(closure_fi(save), 'json.dumps') and any(isinstance(c_.func, ast.Attribute) and c_.func.attr == 'encode' and [const_str(a) for a in c_.args] == ['utf-8'] for b in closure_fi(save) for c_ in nodes(b, ast.Call)), 'save', save.where, 'EntryStored.save no longer writes json.dumps(Serialization.dumps(tree)) encoded as utf-8')
+	rs.check(has_call(closure_fi(load), 'json.load') and has_call(closure_fi(load), 'Serialization.loads') and has_call(closure_fi(load), 'EntryOfLark'), 'load', load.where, 'EntryStored.load no longer restores EntryOfLark(Serialization.loads(json.load(stream)))')
 	le = p.func('SyntaxParserOfLark.__load_entry')
 	fmt = [const_str(k.value) for n in ast.walk(le.node) if isinstance(n, ast.Call) for k in n.keywords if k.arg == 'format']
 	rs.check(fmt == ['json'], 'cache-format', le.where, f'the tree cache is opened with format={fmt}')
